@@ -514,21 +514,23 @@ class RunCrateProvenanceManager(ProvenanceManager, ABC):
                         "alternateName": os.path.basename(element_path),
                         "sha1": checksum,
                     }
-                jsonld_map.setdefault(jsonld_object["@id"], {})[
-                    jsonld_object.get("alternateName", jsonld_object["@id"])
-                ] = element_path
+                jsonld_map.setdefault(jsonld_object["@id"], {}).setdefault(
+                    jsonld_object.get("alternateName", jsonld_object["@id"]), []
+                ).append(element_path)
                 has_part.append(jsonld_object)
         return has_part
 
     def _rename_parts(
         self,
         parts: MutableSequence[MutableMapping[str, Any]],
-        jsonld_map: MutableMapping[str, str],
+        jsonld_map: MutableMapping[str, MutableMapping[str, MutableSequence[str]]],
         prefix: str,
         alternatePrefix: str,
     ) -> MutableSequence[MutableMapping[str, Any]]:
         for part in parts:
-            path = jsonld_map[part["@id"]][part.get("alternateName", part["@id"])]
+            path = jsonld_map[part["@id"]][
+                part.get("alternateName", part["@id"])
+            ].pop(0)
             part["@id"] = os.path.join(prefix, part["@id"])
             if "alternateName" in part:
                 part["alternateName"] = os.path.join(
